@@ -5,13 +5,18 @@ TITLE = "Info registries return what was set"
 U = "parsec/class/info.c"
 LINK = ["repo:" + U, "repo:parsec/class/parsec_object.c", "repo:parsec/class/parsec_list.c", "repo:parsec/class/parsec_rwlock.c"]
 UNITS = ["parsec/class/info.h", "parsec/class/list.h", "parsec/class/parsec_object.h"]
-OUTSIDE = ["concurrent use (set/get racing with a resize; concurrent register): Engine S, not built here - single thread only",
+OUTSIDE = ["concurrent use beyond the Engine S scenarios of hs.c: 2 threads, one operation each on one object array (get||get, get||set, get||test_and_set on one slot; set||test_and_set with a resize), "
+           "schedules with <= 1 (thorough 2) scheduling slots per thread before the deterministic drain; concurrent register/unregister; a get racing with a resize (no verdict in 25 min); weak memory (SC only)",
            "more than 5 infos / 2 growths of one object array; more than 4 (thorough 6) registrations per history",
            "info names longer than 2 characters",
            "destructor callbacks at unregister / registry destruction (parsec_info_destructor)",
            "ids that are not live (documented caller contract of set/get/test_and_set)",
            "stale slot content when an id is reused after unregistering an info that had no destructor"]
-ASSUMPTIONS = ["ids passed to set/get/test_and_set are live ids returned by parsec_info_register (info.h @remark)",
+ASSUMPTIONS = ["Engine S scenarios without a resize run the reader-side rwlock operations as atomic steps (real functions through function pointers): no writer exists there, reader fetch-adds commute; "
+               "with them interleaved one parsec_info_get gives no verdict in 25 min. The resize scenario uses the real interleaved lock",
+               "Engine S setup() links the registry entries with the real list code but does not call parsec_info_register (that call alone stalls CBMC > 100 s on the generated C); scenarios without resize use a "
+               "static typed slot array in place of the calloc'ed one; info constructor/destructor are counting harness callbacks (indirect = atomic)",
+               "ids passed to set/get/test_and_set are live ids returned by parsec_info_register (info.h @remark)",
                "memset is a byte loop written in the harness (CBMC's built-in model loses writes of non-constant length)",
                "the info constructor callback is a harness function returning a distinct non-NULL default per id",
                "findings C41-register-hole and C41-resize-memset (FINDING.md) were repaired in /repo (fix: commits 72497da, 1f4f101; known_findings.json status fixed): the queries run unrestricted; if the status is set back to known the KF_EXCLUDE/KF_ONLY plumbing of reg.c / ioa.c is used again"]
@@ -21,6 +26,20 @@ BOUNDS = {"quick": {"registration history": "2 + 1 + 1 registrations, symbolic u
 NOKF = bool(os.environ.get("VP_NOKF"))
 KF_REG = None if NOKF else "C41-register-hole"
 KF_MEM = None if NOKF else "C41-resize-memset"
+KF_SET = None if NOKF else "C41-set-lost-update"
+
+def kf_aware(inner, kfid):
+    """The driver passes KF_EXCLUDE_/KF_ONLY_ only to goto-cc; Engine S harness code is compiled by clang inside the
+    generator, so the macro is added to the query's defs here (variant recognised by the scratch directory suffix)."""
+    macro = "".join(c if c.isalnum() else "_" for c in kfid).upper()
+    def gen(ctx, q, qdir, overlays):
+        base = os.path.basename(qdir)
+        if base.endswith(".excl") or ".mut." in base:
+            q.defs.append("KF_EXCLUDE_" + macro)
+        elif base.endswith(".only"):
+            q.defs.append("KF_ONLY_" + macro)
+        return inner(ctx, q, qdir, overlays)
+    return gen
 
 def queries(ctx):
     qs = []
@@ -47,10 +66,13 @@ def queries(ctx):
                     unwind=8, unwindset=["expand_array.0:11", "memset.0:%d" % max(41, 8 * (nb0 + nb1 + more) + 1)], checks=["bounds", "pointer"],
                     object_bits=10, kf=(KF_MEM if in_class else None), units=UNITS, timeout=900, tiers=tiers,
                     info=dict(ioa_info, bounds={"infos": nb0 + nb1 + more, "growths": 1 + more})))
-    SN = {1: "get_get", 2: "get_set", 3: "get_tas", 4: "get_resize", 5: "set_tas_resize", 6: "probe", 7: "probeA", 8: "probeB", 9: "probeC", 10: "probeD"}
-    for sc in (1, 2, 3, 4, 5, 6, 7, 8, 9, 10):
-        for R in ((1, 2) if ctx.thorough else (1,)):
-            tiers = ("quick", "thorough") if (R == 1 and sc in (1, 3, 6, 7, 8, 9, 10)) else ("thorough",)
+    SN = {1: "get_get", 2: "get_set", 3: "get_tas", 4: "get_resize", 5: "set_tas_resize"}
+    # scenario 4 of hs.c (parsec_info_get on a set slot racing with a resize triggered by a set on a higher id, real interleaved
+    # rwlock: 97-130 yield points) gave no verdict in 20-25 min even with one scheduling slot per thread; it is not registered.
+    # The resize race is covered by scenario 5 (set on slot 0 || test_and_set on the new id => wrlock + realloc).
+    for sc in (1, 2, 3, 5):
+        for R in (1, 2):
+            tiers = ("quick", "thorough") if R == 1 else ("thorough",)
             if ctx.tier not in tiers:
                 continue
             # fields no thread writes in the scenario (a store would be reported as INTERNAL failure): entry descriptors, list links, registry max_id,
@@ -58,8 +80,8 @@ def queries(ctx):
             ro = ["parsec_info_entry_s.%d" % k for k in range(1, 9)] + ["parsec_list_item_s.1", "parsec_list_item_s.2", "parsec_info_s.2",
                   "parsec_info_object_array_s.3", "parsec_info_object_array_s.5"] + (["parsec_info_object_array_s.2", "parsec_info_object_array_s.4"] if sc not in (4, 5) else [])
             qs.append(Q("s_%s_r%d" % (SN[sc], R), [], defs=["SCEN=%d" % sc], engine="S", units=[U, "parsec/class/info.h", "parsec/class/parsec_rwlock.c", "parsec/class/list.h"],
-                        gen=seqir(["hs.c", "repo:parsec/class/parsec_rwlock.c", "repo:parsec/class/parsec_list.c"], threads=["thread0", "thread1"], rounds=R, drain=True, benign=["nanosleep"], ro_fields=ro),
-                        unwind=8, timeout=2400, slow=True, tiers=tiers,
+                        gen=(lambda g: kf_aware(g, KF_SET) if (sc == 2 and KF_SET) else g)(seqir(["hs.c", "repo:parsec/class/parsec_rwlock.c", "repo:parsec/class/parsec_list.c"], threads=["thread0", "thread1"], rounds=R, drain=True, benign=["nanosleep"], ro_fields=ro)),
+                        unwind=8, timeout=2400, slow=True, tiers=tiers, kf=(KF_SET if sc == 2 else None),
                         info={"symbolic": ["schedule: every SC interleaving with <= %d scheduling slots per thread, then deterministic drain" % R],
                               "functions": ["parsec_info_get", "parsec_info_set", "parsec_info_test_and_set", "parsec_ioa_resize_and_rdlock", "parsec_info_lookup_by_iid",
                                             "parsec_atomic_rwlock_rdlock/rdunlock/wrlock/wrunlock"],
@@ -83,19 +105,24 @@ def mutants(ctx):
         # the two repaired defects (fix: commits 72497da, 1f4f101) re-introduced: the check must report them again
         Mutant("regression_register_hole", U, "                next_item = item;", "                next_item = PARSEC_LIST_ITERATOR_NEXT(item);", queries=["reg_history_2_1"]),
         Mutant("regression_resize_memset", U, "memset(&oa->info_objects[oa->known_infos], 0, sizeof(void *) * (ns - oa->known_infos));", "memset(&oa->info_objects[oa->known_infos - 1], 0, ns - oa->known_infos);", queries=["ioa_1_1_0"]),
+        # concurrent half (Engine S): the loser of a construction race must return the object left in the slot, not its own (destroyed) one
+        Mutant("get_loser_returns_own_object", U, "        ie->destructor(nio, ie->des_data);\n    }\n    return ret;", "        ie->destructor(nio, ie->des_data);\n    }\n    return nio;", queries=["s_get_get_r1"]),
+        Mutant("get_default_installed_without_cas", U, "    ret = parsec_info_test_and_set(oa, iid, nio, NULL);\n    if(ret != nio", "    ret = parsec_info_set(oa, iid, nio); ret = nio;\n    if(ret != nio", queries=["s_get_get_r1", "s_get_tas_r1"]),
         Mutant("set_returns_new_value", U, "    ret = oa->info_objects[iid];\n    oa->info_objects[iid] = info;", "    oa->info_objects[iid] = info;\n    ret = oa->info_objects[iid];", queries=["ioa_0_2_0"]),
     ]
 
 CLAIMED = True
 MANIFEST = {
- "engine": "cbmc-src",
+ "engine": "cbmc-src+seqir",
  "text": "Bounded model checking of the real parsec/class/info.c linked with the real object system, list and rwlock code (single thread): "
          "(a) registration histories from the empty registry (register / unregister a symbolic subset / duplicate-name attempts / re-register) against a ghost model: "
          "ids of live infos distinct and smallest-free, lookup by name, cb_data, max_id; (b) object arrays: init, set, get (constructed default, constructor called once), "
          "test_and_set (replace iff match) and growth of the array, every slot compared with a ghost model, memory-safety checks on. "
          "Two genuine defects were found by these queries (duplicate id after a hole was refilled; resize clears the wrong bytes), repaired by fix: commits in /repo; "
-         "two of the seeded mutants re-introduce them and are reported again.",
- "note": "single thread only (the 'concurrent use' half of the statement is outside); sizes enumerated (<=6 infos, <=2 growths), choices symbolic; memset modelled by a byte loop; "
+         "two of the seeded mutants re-introduce them and are reported again. (c) Engine S (symbolic schedules, 2 threads): two first gets of one slot return the same, stored object, every other "
+         "constructed object is destroyed exactly once; get || set and get || test_and_set agree with the slot; set || test_and_set across a resize keep both values. A third defect was found there "
+         "(parsec_info_set is not atomic: a concurrently constructed default can be overwritten and leaked) and is recorded as known finding C41-set-lost-update with a fix patch.",
+ "note": "concurrent half limited to 2 threads x 1 operation with <= 1-2 scheduling slots per thread + drain, reader-side lock steps atomic where no writer exists; sizes enumerated (<=6 infos, <=2 growths), choices symbolic; memset modelled by a byte loop; "
          "constructor callback is a harness stub.",
  "technique": "CBMC bounded symbolic execution of the real C unit + SAT (cadical), native ASan replay of counterexamples",
 }
